@@ -238,12 +238,17 @@ class Prop(object):
                 try:
                     if op.startswith('primary-'):
                         u = key.userids[0]
-                        u |= key.certify(u, created=K.dt(t), usage=FL[op[8:]], hash=HashAlgorithm.SHA256)
+                        # the flag set is the caller's own scratch set, re-used once the call is back (mc/alias.py)
+                        scratch = set(FL[op[8:]])
+                        u |= key.certify(u, created=K.dt(t), usage=scratch, hash=HashAlgorithm.SHA256)
+                        scratch.clear()
                         flags[0] = op[8:]
                     elif op.startswith('sub'):
                         i = int(op[3])
                         sk = list(key.subkeys.values())[i]
-                        sk |= key.bind(sk, created=K.dt(t), usage=FL[op[5:]], hash=HashAlgorithm.SHA256)
+                        scratch = set(FL[op[5:]])
+                        sk |= key.bind(sk, created=K.dt(t), usage=scratch, hash=HashAlgorithm.SHA256)
+                        scratch.clear()
                         flags[i + 1] = op[5:]
                     elif op == 'sign':
                         capable = [i for i in (0, 1) if 'S' in flags[i]]
